@@ -136,7 +136,7 @@ def main():
     facts = {}
     if harness_ok:
         rc, out = run([os.path.join(BUILD, "verifh"), "facts", "-repo", REPO, "-out", os.path.join(COQ, "Extracted"),
-                       "-json", os.path.join(BUILD, "facts.json")], env=GOENV, timeout=600)
+                       "-json", os.path.join(BUILD, "facts.json"), "-for", pid], env=GOENV, timeout=900)
         if rc != 0:
             broken.append(("translator", out[-3000:]))
         else:
